@@ -85,12 +85,13 @@ def convOp [Inhabited α] (A : Arith α) (at0 : ConvAttrs) (x w : Tensor α) (bi
       let kshape := kern.shape.drop 2
       let inDims := x.shape.drop 2
       let pads : List Int := if at0.autoPad ≠ "NOTSET" then autoPads at0.autoPad inDims strides kshape else pads0
-      if pads.any (· < 0) then .error .unmodelled          -- negative padding: gorgonia panics on a negative dimension
+      if pads.any (· < 0) then .error .panic               -- negative padding (auto_pad with kernel < stride): `tensor.NewDense` panics on a negative dimension
       else
         let pb := (pads.take ns).map Int.toNat
         let pe := (pads.drop ns).map Int.toNat
         let outSp := (List.range ns).map fun i => convOutDim (dim inDims i) (dim kshape i) (pb.getD i 0) (pe.getD i 0) (dim strides i)
-        if outSp.any (· ≤ 0) then .error .unmodelled        -- kernel larger than the padded input
+        if outSp.any (· < 0) then .error .panic             -- kernel larger than the padded input: negative output dimension
+        else if outSp.any (· = 0) then .error .unmodelled
         else
           let outSp := outSp.map Int.toNat
           let px := padInput A.zero x pb pe
